@@ -6,6 +6,7 @@
 package app
 
 import (
+	"math"
 	"net"
 	"time"
 )
@@ -204,3 +205,201 @@ func lemmaSumDurs(itvls []LossItvl, n int) {
 //@   loop 1 invariant state >= lossUnknown && state <= lossHang && wfItvls(li.Itvls)
 //@   loop 1 invariant li.Itvls == nil || fresh(li.Itvls)
 //@   loop 1 decreases len(pattern) - i
+
+// ---------------------------------------------------------------------------
+// C01/C02/C04: segment index <-> media time arithmetic and availability
+
+const (
+	maxSegsPerLoop  = 1000000             // VoD segments per representation
+	maxTimescale    = 10000000            // media timescale
+	maxLoopDurMS    = 1000000000          // loop duration (ms)
+	maxLoopTicks    = 1000000000          // loop duration in media timescale units (3 h at 90 kHz)
+	maxNowMS        = 8796093022208       // 2^43 ms (year 2248)
+	maxStartTimeS   = 8796093022          // availabilityStartTime (s)
+	phaseEarly      = 0
+	phaseOK         = 1
+	phaseGone       = 2
+)
+
+// wfRep: the segment table of a loaded representation is a contiguous, non-empty
+// sequence of non-empty intervals (asset admission, C15) and its numbers are small.
+func wfRep(rep *RepData) bool {
+	return rep != nil && len(rep.Segments) >= 1 && len(rep.Segments) <= maxSegsPerLoop &&
+		rep.MediaTimescale > 0 && rep.MediaTimescale <= maxTimescale &&
+		forall(0, len(rep.Segments), func(i int) bool {
+			return rep.Segments[i].StartTime < rep.Segments[i].EndTime && rep.Segments[i].EndTime <= 2*maxLoopTicks
+		}) &&
+		forall(0, len(rep.Segments)-1, func(i int) bool { return rep.Segments[i].EndTime == rep.Segments[i+1].StartTime }) &&
+		forall(0, len(rep.Segments), func(i int) bool {
+			return forall(i+1, len(rep.Segments), func(j int) bool { return rep.Segments[i].EndTime <= rep.Segments[j].StartTime })
+		})
+}
+
+// sortedSegs: segment intervals are non-empty and ordered (value form of wfRep's ordering).
+func sortedSegs(segs []Segment) bool {
+	return forall(0, len(segs), func(i int) bool {
+		return segs[i].StartTime < segs[i].EndTime && forall(i+1, len(segs), func(j int) bool { return segs[i].EndTime <= segs[j].StartTime })
+	})
+}
+
+// repDur: media duration of one loop of the representation.
+func repDur(rep *RepData) int {
+	return int(rep.Segments[len(rep.Segments)-1].EndTime) - int(rep.Segments[0].StartTime)
+}
+
+// loopExact: the asset's loop duration in ms is exactly the representation's duration.
+func loopExact(a *asset, rep *RepData) bool {
+	return a != nil && a.LoopDurMS > 0 && a.LoopDurMS <= maxLoopDurMS && a.LoopDurMS*rep.MediaTimescale == 1000*repDur(rep) && repDur(rep) <= maxLoopTicks
+}
+
+// wfCfg: the parts of a response configuration that the time arithmetic reads.
+func wfCfg(cfg *ResponseConfig) bool {
+	return cfg != nil && cfg.TimeShiftBufferDepthS != nil && *cfg.TimeShiftBufferDepthS >= 0 && *cfg.TimeShiftBufferDepthS <= 86400 &&
+		cfg.StartTimeS >= 0 && cfg.StartTimeS <= maxStartTimeS && (cfg.StartNr == nil || (*cfg.StartNr >= 0 && *cfg.StartNr <= 1000000000))
+}
+
+// specStartNr: MPD startNumber.
+func specStartNr(cfg *ResponseConfig) int {
+	if cfg.StartNr != nil {
+		return *cfg.StartNr
+	}
+	return 1
+}
+
+// wrapDurOf: duration of one loop in media timescale units as the code computes it;
+// under loopExact it equals repDur(rep) (lemmaWrapDurIsRepDur).
+func wrapDurOf(a *asset, rep *RepData) int {
+	return a.LoopDurMS * rep.MediaTimescale / 1000
+}
+
+// specStart: media start time of the n-th segment (n counted from availabilityStartTime):
+// floor(n/N) loop durations plus the VoD start of segment n mod N.
+func specStart(a *asset, rep *RepData, n int) int {
+	return (n/len(rep.Segments))*wrapDurOf(a, rep) + int(rep.Segments[n%len(rep.Segments)].StartTime)
+}
+
+// specEnd: media end time of the n-th segment.
+func specEnd(a *asset, rep *RepData, n int) int {
+	return int(rep.Segments[n%len(rep.Segments)].EndTime) + (n/len(rep.Segments))*wrapDurOf(a, rep)
+}
+
+// specDur: duration of the n-th segment.
+func specDur(rep *RepData, n int) uint64 {
+	return rep.Segments[n%len(rep.Segments)].EndTime - rep.Segments[n%len(rep.Segments)].StartTime
+}
+
+// specAvailSW: availability time (s since epoch, before availabilityTimeOffset) of VoD
+// segment idx in loop iteration w: availabilityStartTime + its end.
+func specAvailSW(a *asset, rep *RepData, cfg *ResponseConfig, idx, w int) float64 {
+	return float64(int(rep.Segments[idx].EndTime)+w*wrapDurOf(a, rep)+cfg.StartTimeS*rep.MediaTimescale) / float64(rep.MediaTimescale)
+}
+
+// specAvailS: availability time of the n-th segment.
+func specAvailS(a *asset, rep *RepData, cfg *ResponseConfig, n int) float64 {
+	return specAvailSW(a, rep, cfg, n%len(rep.Segments), n/len(rep.Segments))
+}
+
+// phaseOf: availability phase of VoD segment idx in loop iteration w at nowMS.
+func phaseOf(a *asset, rep *RepData, cfg *ResponseConfig, idx, w, nowMS int) int {
+	return specPhase(specAvailSW(a, rep, cfg, idx, w), float64(nowMS)*0.001, float64(*cfg.TimeShiftBufferDepthS), cfg.AvailabilityTimeOffsetS)
+}
+
+// specPhase: too early / available / gone for an availability time, at nowS, with
+// time-shift buffer depth tsbdS (+10 s margin) and availabilityTimeOffset atoS.
+func specPhase(availS, nowS, tsbdS, atoS float64) int {
+	if atoS == math.Inf(1) {
+		return phaseOK
+	}
+	if atoS > 0 {
+		availS = availS - atoS
+	}
+	if availS > nowS {
+		return phaseEarly
+	}
+	if availS < nowS-(tsbdS+10) {
+		return phaseGone
+	}
+	return phaseOK
+}
+
+// specEarlyMS: the milliseconds reported by a 425 answer.
+func specEarlyMS(availS, nowS, atoS float64) int {
+	if atoS > 0 {
+		availS = availS - atoS
+	}
+	return int(math.Round((availS - nowS) * 1000.0))
+}
+
+//@ func newErrTooEarly
+//@   ensures result.deltaMS == deltaMS
+
+//@ func (*ResponseConfig).getStartNr
+//@   requires rc != nil
+//@   ensures  result == specStartNr(rc)
+
+//@ func (*ResponseConfig).getAvailabilityTimeOffsetS
+//@   requires rc != nil
+//@   ensures  result == rc.AvailabilityTimeOffsetS
+
+//@ func CheckTimeValidity
+//@   ensures ok: result == nil <==> specPhase(availTimeS, nowS, timeShiftBufferDepthS, availabilityTimeOffsetS) == phaseOK
+//@   ensures early: typeIs(result, errTooEarly{}) <==> specPhase(availTimeS, nowS, timeShiftBufferDepthS, availabilityTimeOffsetS) == phaseEarly
+//@   ensures gone: result == errGone <==> specPhase(availTimeS, nowS, timeShiftBufferDepthS, availabilityTimeOffsetS) == phaseGone
+//@   ensures remaining: typeIs(result, errTooEarly{}) ==> result.(errTooEarly).deltaMS == specEarlyMS(availTimeS, nowS, availabilityTimeOffsetS)
+//@   allocates
+
+//@ func RepData.duration
+//@   requires len(r.Segments) >= 1
+//@   ensures  result == int(r.Segments[len(r.Segments)-1].EndTime - r.Segments[0].StartTime)
+
+// findSegMetaFromNr: segment nr is VoD segment (nr-startNr) mod N shifted by floor((nr-startNr)/N) loops.
+//@ func findSegMetaFromNr
+//@   returns  (sm, err)
+//@   nowrap
+//@   requires a != nil && wfRep(rep) && loopExact(a, rep) && wfCfg(cfg) && 0 <= nowMS && nowMS <= maxNowMS
+//@   requires nrGEstart: int(nr) >= specStartNr(cfg)
+//@   ensures  bridge: (int(nr)-specStartNr(cfg)) - ((int(nr)-specStartNr(cfg))/len(rep.Segments))*len(rep.Segments) == (int(nr)-specStartNr(cfg)) % len(rep.Segments)
+//@   ensures  phase: (err == nil <==> specPhase(specAvailS(a, rep, cfg, int(nr)-specStartNr(cfg)), float64(nowMS)*0.001, float64(*cfg.TimeShiftBufferDepthS), cfg.AvailabilityTimeOffsetS) == phaseOK)
+//@   ensures  early: (typeIs(err, errTooEarly{}) <==> specPhase(specAvailS(a, rep, cfg, int(nr)-specStartNr(cfg)), float64(nowMS)*0.001, float64(*cfg.TimeShiftBufferDepthS), cfg.AvailabilityTimeOffsetS) == phaseEarly)
+//@   ensures  gone: (err == errGone <==> specPhase(specAvailS(a, rep, cfg, int(nr)-specStartNr(cfg)), float64(nowMS)*0.001, float64(*cfg.TimeShiftBufferDepthS), cfg.AvailabilityTimeOffsetS) == phaseGone)
+//@   ensures  remaining: typeIs(err, errTooEarly{}) ==> err.(errTooEarly).deltaMS == specEarlyMS(specAvailS(a, rep, cfg, int(nr)-specStartNr(cfg)), float64(nowMS)*0.001, cfg.AvailabilityTimeOffsetS)
+//@   ensures  time: err == nil ==> sm.newTime == uint64(specStart(a, rep, int(nr)-specStartNr(cfg))) && sm.newDur == uint32(specDur(rep, int(nr)-specStartNr(cfg))) && sm.newNr == nr
+//@   ensures  source: err == nil ==> sm.rep == rep && sm.origTime == rep.Segments[(int(nr)-specStartNr(cfg))%len(rep.Segments)].StartTime && sm.origNr == rep.Segments[(int(nr)-specStartNr(cfg))%len(rep.Segments)].Nr && sm.origDur == sm.newDur && int(sm.timescale) == rep.MediaTimescale
+//@   allocates
+
+//@ func RepData.findSegmentIndexFromTime
+//@   requires sortedSegs(r.Segments)
+//@   ensures  0 <= result && result <= len(r.Segments)
+//@   ensures  forall i in [0, result) :: r.Segments[i].StartTime < t
+//@   ensures  result < len(r.Segments) ==> r.Segments[result].StartTime >= t
+//@   allocates
+
+//@ func findFirstFinishedSegIdx
+//@   requires sortedSegs(segs)
+//@   ensures  -1 <= result && result < len(segs)
+//@   ensures  forall i in [0, result+1) :: segs[i].EndTime <= t
+//@   ensures  result+1 < len(segs) ==> segs[result+1].EndTime > t
+//@   allocates
+
+// findSegMetaFromTime: a $Time$ address is accepted only if, after removing whole loops
+// (w = time / loop duration), it is exactly the start of a VoD segment idx; the answer then
+// describes segment number startNumber + idx + w*N with the availability of that segment.
+//@ func findSegMetaFromTime
+//@   returns  (sm, err)
+//@   nowrap
+//@   requires a != nil && wfRep(rep) && loopExact(a, rep) && wfCfg(cfg) && 0 <= nowMS && nowMS <= maxNowMS && time <= 4000000000000000000
+//@   use      lemmaWrapDurIsRepDur(a, rep)
+//@   ensures  hit: err == nil ==> exists idx in [0, len(rep.Segments)) :: (int(rep.Segments[idx].StartTime) == int(time) - int(time)/wrapDurOf(a, rep)*wrapDurOf(a, rep) && sm.origTime == rep.Segments[idx].StartTime && sm.origNr == rep.Segments[idx].Nr && sm.newNr == uint32(specStartNr(cfg)+idx+int(time)/wrapDurOf(a, rep)*len(rep.Segments)) && sm.newDur == uint32(rep.Segments[idx].EndTime-rep.Segments[idx].StartTime))
+//@   ensures  fields: err == nil ==> sm.newTime == time && sm.rep == rep && sm.origDur == sm.newDur && int(sm.timescale) == rep.MediaTimescale
+//@   ensures  phase: forall idx in [0, len(rep.Segments)) :: (int(rep.Segments[idx].StartTime) == int(time) - int(time)/wrapDurOf(a, rep)*wrapDurOf(a, rep) ==> (err == nil <==> phaseOf(a, rep, cfg, idx, int(time)/wrapDurOf(a, rep), nowMS) == phaseOK))
+//@   ensures  early: forall idx in [0, len(rep.Segments)) :: (int(rep.Segments[idx].StartTime) == int(time) - int(time)/wrapDurOf(a, rep)*wrapDurOf(a, rep) ==> (typeIs(err, errTooEarly{}) <==> phaseOf(a, rep, cfg, idx, int(time)/wrapDurOf(a, rep), nowMS) == phaseEarly))
+//@   ensures  gone: forall idx in [0, len(rep.Segments)) :: (int(rep.Segments[idx].StartTime) == int(time) - int(time)/wrapDurOf(a, rep)*wrapDurOf(a, rep) ==> (err == errGone <==> phaseOf(a, rep, cfg, idx, int(time)/wrapDurOf(a, rep), nowMS) == phaseGone))
+//@   ensures  miss: (forall idx in [0, len(rep.Segments)) :: int(rep.Segments[idx].StartTime) != int(time) - int(time)/wrapDurOf(a, rep)*wrapDurOf(a, rep)) ==> err != nil && !typeIs(err, errTooEarly{}) && err != errGone
+//@   allocates
+
+// lemmaWrapDurIsRepDur: the loop duration used by the code is the representation's duration.
+//@ lemma lemmaWrapDurIsRepDur
+//@   requires wfRep(rep) && loopExact(a, rep)
+//@   ensures  wrapDurOf(a, rep) == repDur(rep) && wrapDurOf(a, rep) >= 1 && wrapDurOf(a, rep) <= maxLoopTicks
+//@   ensures  forall i in [0, len(rep.Segments)) :: int(rep.Segments[i].EndTime) - int(rep.Segments[0].StartTime) <= wrapDurOf(a, rep)
+func lemmaWrapDurIsRepDur(a *asset, rep *RepData) {}
